@@ -12,6 +12,7 @@ CONSTANTS
   MaxSched = 1
   MaxBad = 2
   MaxTimeouts = 1
+  MaxConnLost = 0
   MaxAttempts = 1
   Filter = FALSE
 INVARIANTS TypeOK FinOnlyAfterAccept
